@@ -8,18 +8,33 @@ use crate::lay::*;
 use crate::rec::*;
 use crate::scen::*;
 
-fn one<T: FEl>(tr: &mut Trace, rng: &mut Rng, n: usize, class: &str, trailing: &[usize], dclass: &str, xdef: bool, few: bool) {
-    let x: Vec<T> = if xdef { (0..n).map(|i| T::of_f64(i as f64)).collect() } else { gen::axis::<T>(rng, n, class) };
+/// `mag`: axis and data are multiplied by 2^mag (exact): huge / tiny magnitudes, where a product of a data difference
+/// and an axis offset overflows / underflows although every input, the slope and the result are ordinary numbers
+#[allow(clippy::too_many_arguments)]
+fn one<T: FEl>(tr: &mut Trace, rng: &mut Rng, n: usize, class: &str, trailing: &[usize], dclass: &str, xdef: bool, few: bool, mag: i32) {
+    let mut x: Vec<T> = if xdef { (0..n).map(|i| T::of_f64(i as f64)).collect() } else { gen::axis::<T>(rng, n, class) };
     let mut shape = vec![n];
     shape.extend_from_slice(trailing);
-    let data = gen::data::<T>(rng, &shape, dclass);
+    let mut data = gen::data::<T>(rng, &shape, dclass);
+    if mag != 0 && !xdef {
+        let f = (2.0f64).powi(mag);
+        let xs: Vec<T> = x.iter().map(|v| T::of_f64(v.as_f64() * f)).collect();
+        let ok = xs.windows(2).all(|w| w[0] < w[1]) && xs.iter().all(|v| v.as_f64().is_finite() && (v.as_f64() == 0.0 || v.as_f64().abs() > 1e-300));
+        if ok {
+            x = xs;
+            data.mapv_inplace(|v| T::of_f64(v.as_f64() * f));
+        }
+    }
     let (store, dlay, xlay) = gen::next_layout();
     let dr = real(&data, dlay);
     let xr = real1(&x, xlay);
     let dynamic = rng.below(6) == 0;
     let cfg = Cfg1 { x: if xdef { None } else { Some(&xr) }, data: &dr, dtag: dtag_for(shape.len(), dynamic), store };
     let qin = gen::queries_in_range(rng, &x, if few { 3 } else { 10 });
-    let qout = gen::queries_outside(rng, &x, 50.0, if few { 3 } else { 8 });
+    let mut qout = gen::queries_outside(rng, &x, 50.0, if few { 3 } else { 8 });
+    if mag == 0 {
+        qout.extend(gen::queries_far(&x, false));
+    }
     for ex in [false, true] {
         let b = match do_build1(tr, &cfg, &Strat1::Linear { ex }, &[]) {
             Some(b) => b,
@@ -65,10 +80,13 @@ pub fn linear(tr: &mut Trace, rng: &mut Rng, thorough: bool) {
         let trailing = gen::TRAILING[rng.below(gen::TRAILING.len())];
         let dclass = gen::DATA_CLASSES[rng.below(gen::DATA_CLASSES.len())];
         let xdef = i % 7 == 3;
+        // every 9th build in huge / tiny units (alternating), the others in ordinary ones
+        let mag64 = if i % 9 == 4 { if (i / 9) % 2 == 0 { 660 } else { -660 } } else { 0 };
+        let mag32 = if i % 9 == 5 || i % 9 == 8 { if (i / 9) % 2 == 0 { 56 } else { -56 } } else { 0 };
         if i % 3 == 2 {
-            one::<f32>(tr, rng, n, class, trailing, dclass, xdef, !thorough);
+            one::<f32>(tr, rng, n, class, trailing, dclass, xdef, !thorough, mag32);
         } else {
-            one::<f64>(tr, rng, n, class, trailing, dclass, xdef, !thorough);
+            one::<f64>(tr, rng, n, class, trailing, dclass, xdef, !thorough, mag64);
         }
     }
 }
